@@ -108,8 +108,18 @@ def gen_tracker(r):
     return "%s://%s%s%s%s%s" % (scheme, host, port, path, query, frag)
 
 
+# host names the url crate's Host::parse accepts although they carry characters that mean something in a query string
+# (sub-delimiters are not forbidden host code points); the ones it refuses are dropped by the validity filter below
+ODD_LABELS = ["seed+backup", "a&b", "a&dn=evil", "x=y", "k=v&k2=v2", "a;b", "a,b", "it's", "(x)", "a*b", "a!b", "a$b", "a~b", "a_b",
+              "+", "&", "=", "a+", "&a", "100%", "%41", "a%26b", "a b", "a#b", "a?b", "tr=x", "so=1", "xt=urn:btih"]
+
+
 def gen_peer(r):
-    return "%s:%d" % (gen_host(r), r.choice([0, 1, 80, 6881, 65535, r.randrange(65536)]))
+    port = r.choice([0, 1, 80, 6881, 65535, r.randrange(65536)])
+    if r.random() < 0.3:
+        host = r.choice(ODD_LABELS) + r.choice(["", ".example", ".org", "." + r.choice(ODD_LABELS)])
+        return "%s:%d" % (host, port)
+    return "%s:%d" % (gen_host(r), port)
 
 
 def gen_indices(r):
@@ -768,7 +778,8 @@ def run(ctx):
 
     # pools of typed values, with their normal forms from imdl's own typed parsers
     cand_tr = [gen_tracker(r) for _ in range(ctx.n(400, 4000))] + ["http://foo.com/announce", "udp://tracker.example:6969", "HTTP://EXAMPLE.COM:80/A?b=c"]
-    cand_pe = [gen_peer(r) for _ in range(ctx.n(200, 2000))] + ["foo.com:1337", "[2001:0db8::0001]:1", "1.2.3.4:5", "LOCALHOST:0"]
+    cand_pe = [gen_peer(r) for _ in range(ctx.n(200, 2000))] + ["foo.com:1337", "[2001:0db8::0001]:1", "1.2.3.4:5", "LOCALHOST:0"] + \
+        ["%s.example:%d" % (l, 6881) for l in ODD_LABELS]
     norm.add(cand_tr + [c for cc in CORPUS_PRINT for c in cc["trackers"]], cand_pe + [c for cc in CORPUS_PRINT for c in cc["peers"]])
     ok_tr = [t for t in dict.fromkeys(cand_tr) if norm.url[t] is not None]
     ok_pe = [p for p in dict.fromkeys(cand_pe) if norm.hp[p] is not None]
